@@ -24,21 +24,6 @@
 #endif
 
 void harness(void) {
-#ifdef VF_T_LOOP
-	/* any number of whole blocks; the size travels in the ghost vf_blk_len */
-	VF_NONDET(size_t, nbytes);
-	VF_ASSUME((nbytes & (VF_BLK - 1)) == 0);
-#ifndef VF_REPLAY
-	vf_blk_len = nbytes;
-#endif
-	VF_FRESH_PTR(CTX_T, ctx, sizeof(CTX_T));
-	VF_FRESH_PTR(uint8_t, blocks, nbytes);
-	const uint8_t *blocks_max = blocks + nbytes;
-	VF_T_FN(ctx, blocks, blocks_max);
-	VF_CANARY("sha transform loop harness end");
-}
-void harness_unused(void) {
-#endif
 #ifdef VF_T_ALIAS
 	/* the context is the harness's own object so that ctx->buffer is a concrete pointer */
 	VF_NONDET_OBJ(CTX_T, ctx_obj);
